@@ -27,7 +27,7 @@ RULE = ("random tree with a random quantity form per node (lambda / def / string
         "and original; distinct = hash of parameters; non-trivial = some fill passed the gate")
 SHRINK_LISTS = ["sa", "cont"]
 
-FORMS = ["lambda", "lambda", "def", "str", "cached", "cachedstr", "namedstr", "cachednamedstr"]
+FORMS = ["lambda", "lambda", "nandefault", "def", "localdef", "str", "cached", "cachedstr", "namedstr", "cachednamedstr"]
 
 
 def add_forms(rng, spec):
@@ -37,7 +37,7 @@ def add_forms(rng, spec):
             col, name = node["q"][0], node["q"][1]
             if form == "def" and col not in gen.DEFS:
                 form = "lambda"
-            if form in ("def", "str", "cachedstr"):
+            if form in ("def", "localdef", "str", "cachedstr"):
                 name = None   # these forms carry an implicit name (known finding C17-implicit-name forbids a second one)
             node["q"] = [col, name, form]
     return spec
@@ -176,8 +176,8 @@ def bare_check(b):
     c.fill.numpy(arr.copy())
     if c.toJson() != h.toJson():
         return "clone and original diverge under identical vectorised fills with a bare array (%s over %s)" % (sh, b["form"])
-    # the same code path on both sides: also bit for bit on data that is not exactly representable (values within rounding
-    # distance of non-dyadic bin edges, fractional weights)
+    # data that is not exactly representable (values within rounding distance of non-dyadic bin edges, fractional weights):
+    # every value must land in the same bin on both sides; accumulated sums agree up to rounding
     import random
 
     rng = random.Random(int(sum(abs(x) for x in b["post"]) * 8) + len(b["pre"]))
@@ -191,10 +191,38 @@ def bare_check(b):
         ws = np.array([rng.choice([1.0, 0.3, 0.7, 1.1, 2.5, 0.0]) for _ in range(n)])
         hist.fill.numpy(xs, ws)
         clone.fill.numpy(xs.copy(), ws.copy())
-        if clone.toJson() != hist.toJson():
-            return ("clone and original diverge under one identical vectorised fill of non-dyadic data: %s filled with %r, weights %r"
-                    % (hist.name, xs.tolist(), ws.tolist()))
+        # "keeps them equal": the library's == and the same content up to floating-point rounding of accumulated sums (a
+        # clone may legitimately take an equivalent vectorised code path that adds the same terms in another order)
+        if not (clone == hist) or _close_docs(clone.toJson(), hist.toJson()) is not None:
+            return ("clone and original diverge under one identical vectorised fill of non-dyadic data (%s): %s filled with %r, weights %r"
+                    % (_close_docs(clone.toJson(), hist.toJson()) or "== is false", hist.name, xs.tolist(), ws.tolist()))
     return None
+
+
+def _close_docs(a, b, path=""):
+    """first difference between two JSON documents beyond rounding (numbers to 1e-9 relative), or None"""
+    num = lambda x: isinstance(x, (int, float)) and not isinstance(x, bool)  # noqa: E731
+    if num(a) and num(b):
+        return None if abs(a - b) <= 1e-9 * max(1.0, abs(a), abs(b)) else "%s: %r != %r" % (path, a, b)
+    if type(a) is not type(b):
+        return "%s: %r vs %r" % (path, a, b)
+    if isinstance(a, dict):
+        if set(a) != set(b):
+            return "%s: keys differ" % path
+        for k in a:
+            d = _close_docs(a[k], b[k], path + "/" + str(k))
+            if d:
+                return d
+        return None
+    if isinstance(a, list):
+        if len(a) != len(b):
+            return "%s: length %d vs %d" % (path, len(a), len(b))
+        for i, (x, y) in enumerate(zip(a, b)):
+            d = _close_docs(x, y, "%s[%d]" % (path, i))
+            if d:
+                return d
+        return None
+    return None if a == b else "%s: %r != %r" % (path, a, b)
 
 
 execs.PY_ONLY_OPS.add("c11bare")
